@@ -25,7 +25,15 @@
   { __CPROVER_assert(i < v->size, "vector index in range");                      \
     return &v->data[i]; }                                                        \
   static inline void NAME##__ctor_0(NAME *v)                                     \
-  { v->data = (T *)__verif_new_array(sizeof(T), VEC_LOCAL_CAP); v->size = 0; v->cap = VEC_LOCAL_CAP; }
+  { v->data = (T *)__verif_new_array(sizeof(T), VEC_LOCAL_CAP); v->size = 0; v->cap = VEC_LOCAL_CAP; } \
+  /* vector(n): n value-initialised elements */                                  \
+  static inline NAME NAME##__make_1(size_t n)                                    \
+  { NAME v; __CPROVER_assert(n <= VEC_LOCAL_CAP, "model limit: vector capacity"); \
+    v.data = (T *)__verif_new_array(sizeof(T), VEC_LOCAL_CAP); v.size = n; v.cap = VEC_LOCAL_CAP; return v; } \
+  /* resize(n): the size becomes n (new elements value-initialised); reserve(n): the size does NOT change */ \
+  static inline void NAME##__resize(NAME *v, size_t n)                           \
+  { __CPROVER_assert(n <= v->cap, "model limit: vector capacity"); v->size = n; } \
+  static inline void NAME##__reserve(NAME *v, size_t n) { (void)v; (void)n; }
 
 #define VEC_DECL(NAME, T)                                                        \
   typedef struct { T *data; size_t size; size_t cap; } NAME;                     \
